@@ -241,7 +241,10 @@ func genSession14(c *Chooser) Session {
 	}
 	if c.Chance(1, 4) {
 		// the environment is not an input
-		env := [][2]string{{"NO_COLOR", "1"}, {"TERM", "xterm-256color"}, {"TERM", "dumb"}, {"JD_COLOR", "1"}, {"JD_FORMAT", "patch"}, {"JD_OPTS", "-set"}, {"LANG", "C"}, {"LC_ALL", "tr_TR.UTF-8"}, {"HOME", "/root"}, {"DEBUG", "1"}, {"CI", "true"}, {"CLICOLOR_FORCE", "1"}, {"GITHUB_OUTPUT", "gh-out"}}
+		s.Env = genEnv(c)
+	}
+	if false {
+		env := [][2]string{{"GITHUB_ACTIONS", "true"}, {"GITHUB_ACTIONS", "true"}, {"USER", "root"}, {"TMPDIR", "/nonexistent"}, {"PWD", "/work"}, {"JD_DEBUG", "1"}, {"NO_COLOR", "1"}, {"TERM", "xterm-256color"}, {"TERM", "dumb"}, {"JD_COLOR", "1"}, {"JD_FORMAT", "patch"}, {"JD_OPTS", "-set"}, {"LANG", "C"}, {"LC_ALL", "tr_TR.UTF-8"}, {"HOME", "/root"}, {"DEBUG", "1"}, {"CI", "true"}, {"CLICOLOR_FORCE", "1"}, {"GITHUB_OUTPUT", "gh-out"}}
 		for i := 0; i < c.Range(1, 3); i++ {
 			s.Env = append(s.Env, env[c.Int(len(env))])
 		}
@@ -592,4 +595,14 @@ func variants14(c *Chooser, s Session, base *sessRun) []Variant {
 		vs = keep
 	}
 	return vs
+}
+
+// genEnv draws a few environment variables a jd process might find.
+func genEnv(c *Chooser) [][2]string {
+	env := [][2]string{{"GITHUB_ACTIONS", "true"}, {"GITHUB_ACTIONS", "true"}, {"CI", "true"}, {"USER", "root"}, {"TMPDIR", "/nonexistent"}, {"PWD", "/work"}, {"JD_DEBUG", "1"}, {"NO_COLOR", "1"}, {"TERM", "xterm-256color"}, {"TERM", "dumb"}, {"JD_COLOR", "1"}, {"JD_FORMAT", "patch"}, {"JD_OPTS", "-set"}, {"LANG", "C"}, {"LC_ALL", "tr_TR.UTF-8"}, {"HOME", "/root"}, {"DEBUG", "1"}, {"CLICOLOR_FORCE", "1"}, {"GITHUB_OUTPUT", "gh-out"}}
+	var out [][2]string
+	for i := 0; i < c.Range(1, 3); i++ {
+		out = append(out, env[c.Int(len(env))])
+	}
+	return out
 }
